@@ -59,6 +59,8 @@ def _match(src, i, o='{', c='}'):
         if src[j] == o:
             d += 1
         elif src[j] == c:
+            if c == '>' and j > 0 and src[j - 1] in '-=':
+                continue        # `->` / `=>` are not closing angle brackets
             d -= 1
             if d == 0:
                 return j
@@ -234,9 +236,25 @@ class Tables:
                 self.impls[(rel, line, col)] = (tm.group(1), im.group(0).split('::')[-1])
 
     @staticmethod
-    def _pick(decls, hint):
+    def _pick(decls, hint, segs=None):
         if not decls:
             return None
+        if segs and len(segs) > 1:
+            # prefer the declaration whose file path ends with the longest suffix of the module path
+            best, bestn = [], 0
+            for d in decls:
+                parts = re.sub(r'\.rs$', '', d[0]).split('/')
+                if parts and parts[-1] in ('mod', 'lib'):
+                    parts = parts[:-1]
+                n = 0
+                while n < len(segs) and n < len(parts) and segs[-1 - n] == parts[-1 - n]:
+                    n += 1
+                if n > bestn:
+                    best, bestn = [d], n
+                elif n == bestn and n > 0:
+                    best.append(d)
+            if len(best) == 1:
+                return best[0][1]
         if hint:
             c = [d for d in decls if re.search(r'(^|/|-)%s(\.rs|/|-\d)' % re.escape(hint), d[0]) or d[0].startswith(hint)]
             if len(c) == 1:
@@ -256,11 +274,11 @@ class Tables:
         name, hint = type_name_hint(ty)
         if name in self.enums and (hint in (None, 'option', 'result', 'task', 'ops', 'poll', 'cmp', 'borrow', 'hash_map', 'itertools', 'either', 'future', 'futures', 'std', 'core')):
             return self.enums[name]
-        return self._pick(self.enum_decls.get(name), hint)
+        return self._pick(self.enum_decls.get(name), hint, type_path(ty))
 
     def struct_fields(self, ty):
         name, hint = type_name_hint(ty)
-        return self._pick(self.struct_decls.get(name), hint)
+        return self._pick(self.struct_decls.get(name), hint, type_path(ty))
 
 
 def _last_ident(t):
@@ -300,6 +318,23 @@ def type_name_hint(ty):
     if not segs:
         return ty, None
     return segs[-1], (segs[-2] if len(segs) > 1 else None)
+
+
+def type_path(ty):
+    """module path segments of a type text, the type's own name excluded: `runner::basic::Cli` -> ['runner', 'basic']"""
+    t = ty.strip()
+    t = re.sub(r"^(&\s*('\w+\s+)?(mut\s+)?|\*const\s+|\*mut\s+|dyn\s+)+", '', t)
+    out, d, prev = [], 0, ''
+    for ch in t:
+        if ch == '<':
+            d += 1
+        elif ch == '>' and prev not in '-=':
+            d -= 1
+        elif d == 0:
+            out.append(ch)
+        prev = ch
+    segs = [x.strip() for x in ''.join(out).split('::') if x.strip()]
+    return segs[:-1]
 
 
 def build(repo_root):
